@@ -161,6 +161,206 @@ def random_graph_case(rng, i, maxlen=40):
     return ["case rnd%d %s" % (i, "dir" if directed else "undir")] + ops
 
 
+class OShadow:
+    """rough shadow of one observer: node label -> graph id, edge label -> edge id, indices"""
+    def __init__(self):
+        self.n = {}
+        self.e = {}
+        self.ni = {}
+        self.ei = {}
+
+    def copy(self):
+        c = OShadow()
+        c.n, c.e = dict(self.n), dict(self.e)
+        c.ni = {k: v for k, v in self.ni.items() if k in self.n}
+        c.ei = {k: v for k, v in self.ei.items() if k in self.e}
+        return c
+
+
+NLAB = 10
+
+
+def random_observer_case(rng, i, maxlen=40):
+    directed = rng.random() < 0.5
+    sh = Shadow(directed)
+    obs = {0: OShadow()}
+    ops = []
+
+    def forget_edges():
+        for o in obs.values():
+            for l in [l for l, e in o.e.items() if e not in sh.edges]:
+                del o.e[l]; o.ei.pop(l, None)
+
+    def forget_nodes():
+        for o in obs.values():
+            for l in [l for l, n in o.n.items() if n not in sh.nodes]:
+                del o.n[l]; o.ni.pop(l, None)
+
+    def node(o, absent=0.2):
+        if o.n and rng.random() >= absent:
+            return rng.choice(sorted(o.n))
+        return rng.randint(0, NLAB - 1)
+
+    def edge(o, absent=0.25):
+        if o.e and rng.random() >= absent:
+            return rng.choice(sorted(o.e))
+        return rng.randint(0, NLAB - 1)
+
+    def free_node(o):
+        c = [l for l in range(NLAB) if l not in o.n]
+        return rng.choice(c) if c and rng.random() < 0.85 else rng.randint(0, NLAB - 1)
+
+    def free_edge(o):
+        if rng.random() < 0.35:
+            return "-"
+        c = [l for l in range(NLAB) if l not in o.e]
+        return str(rng.choice(c)) if c and rng.random() < 0.85 else str(rng.randint(0, NLAB - 1))
+
+    L = rng.randint(4, maxlen)
+    while len(ops) < L:
+        k = rng.choice(sorted(obs)) if rng.random() < 0.8 else rng.randint(0, 2)
+        o = obs.get(k)
+        r = rng.random()
+        if o is None:
+            # an observer that does not exist: only copy into it (or, rarely, use it: undefined, answered `ub`)
+            j = rng.choice(sorted(obs))
+            if rng.random() < 0.8:
+                ops.append("o.copy %d %d" % (j, k)); obs[k] = obs[j].copy()
+            else:
+                ops.append("o.qg %d" % k)
+            continue
+        if r < 0.16:
+            if len(sh.nodes) >= MAXN:
+                continue
+            a = free_node(o)
+            ops.append("o.createNode %d %d" % (k, a))
+            if a not in o.n:
+                o.n[a] = sh.nn; sh.apply("createNode")
+        elif r < 0.24:
+            if len(sh.nodes) >= MAXN:
+                continue
+            orig, a, x = node(o), free_node(o), free_edge(o)
+            ops.append("o.createNodeFrom %d %d %d %s" % (k, orig, a, x))
+            if orig in o.n and a not in o.n and (x == "-" or int(x) not in o.e):
+                n = sh.nn; sh.apply("createNode"); o.n[a] = n
+                ne = sh.ne; sh.apply("link %d %d" % (o.n[orig], n))
+                if x != "-" and sh.ne > ne:
+                    o.e[int(x)] = ne
+        elif r < 0.42:
+            a, b, x = node(o, 0.1), node(o, 0.1), free_edge(o)
+            ops.append("o.link %d %d %d %s" % (k, a, b, x))
+            if a in o.n and b in o.n and (x == "-" or int(x) not in o.e):
+                ne = sh.ne; sh.apply("link %d %d" % (o.n[a], o.n[b]))
+                if x != "-" and sh.ne > ne:
+                    o.e[int(x)] = ne
+        elif r < 0.50:
+            a, b = node(o), node(o)
+            if o.e and rng.random() < 0.7:
+                eid = o.e[rng.choice(sorted(o.e))]
+                if eid in sh.edges:
+                    inv = {v: l for l, v in o.n.items()}
+                    x, y = sh.edges[eid]
+                    if x in inv and y in inv:
+                        a, b = inv[x], inv[y]
+            ops.append("o.unlink %d %d %d" % (k, a, b))
+            if a in o.n and b in o.n:
+                sh.apply("unlink %d %d" % (o.n[a], o.n[b])); forget_edges()
+        elif r < 0.56:
+            a = node(o)
+            ops.append("o.deleteNode %d %d" % (k, a))
+            if a in o.n:
+                sh.apply("deleteNode %d" % o.n[a]); forget_edges(); forget_nodes()
+        elif r < 0.60:
+            a = node(o, 0.5)
+            i = rng.randint(0, 6)
+            ops.append("o.setNodeIndex %d %d %d" % (k, a, i))
+            if a not in o.ni and i not in o.ni.values():
+                o.ni[a] = i
+        elif r < 0.64:
+            a = node(o, 0.3)
+            ops.append("o.addNodeIndex %d %d" % (k, a))
+            if a not in o.ni:
+                i = 0
+                while i in o.ni.values():
+                    i += 1
+                o.ni[a] = i
+        elif r < 0.67:
+            x = edge(o, 0.4); i = rng.randint(0, 6)
+            ops.append("o.setEdgeIndex %d %d %d" % (k, x, i))
+            if x not in o.ei and i not in o.ei.values():
+                o.ei[x] = i
+        elif r < 0.70:
+            x = edge(o, 0.3)
+            ops.append("o.addEdgeIndex %d %d" % (k, x))
+            if x not in o.ei:
+                i = 0
+                while i in o.ei.values():
+                    i += 1
+                o.ei[x] = i
+        elif r < 0.72:
+            a = node(o, 0.5)
+            ops.append("o.dissociateNode %d %d" % (k, a)); o.n.pop(a, None)
+        elif r < 0.735:
+            x = edge(o, 0.5)
+            ops.append("o.dissociateEdge %d %d" % (k, x)); o.e.pop(x, None)
+        elif r < 0.755:
+            a = free_node(o); n = pick_node(rng, sh)
+            ops.append("o.associateNode %d %d %d" % (k, a, n))
+            if a not in o.n and n in sh.nodes and n not in o.n.values():
+                o.n[a] = n
+        elif r < 0.77:
+            x = rng.randint(0, NLAB - 1); e = pick_edge(rng, sh)
+            ops.append("o.associateEdge %d %d %d" % (k, x, e))
+            if x not in o.e and e in sh.edges and e not in o.e.values():
+                o.e[x] = e
+        elif r < 0.785:
+            a, b, x = node(o), node(o), rng.randint(0, NLAB - 1)
+            ops.append("o.setEdgeLinking %d %d %d %d" % (k, a, b, x))
+            if a in o.n and b in o.n and x not in o.e:
+                e = sh.between(o.n[a], o.n[b]) if sh.d else None
+                if e is not None and e not in o.e.values():
+                    o.e[x] = e
+        elif r < 0.80:
+            kk = rng.randint(1, 2)
+            if kk != k:
+                ops.append("o.copy %d %d" % (k, kk)); obs[kk] = o.copy()
+        elif r < 0.81:
+            if k != 0:
+                ops.append("o.drop %d" % k); del obs[k]
+        elif r < 0.84:
+            # operations made directly on the shared graph
+            rr = rng.random()
+            if rr < 0.3 and len(sh.nodes) < MAXN:
+                g = "createNode"
+            elif rr < 0.5:
+                g = "deleteNode %d" % pick_node(rng, sh)
+            elif rr < 0.7:
+                g = "unlink %d %d" % pick_linked(rng, sh)
+            elif rr < 0.8:
+                g = "link %d %d" % (pick_node(rng, sh), pick_node(rng, sh))
+            elif rr < 0.9:
+                g = "makeDirected"
+            else:
+                g = "makeUndirected"
+            ops.append(g); sh.apply(g); forget_edges(); forget_nodes()
+        elif r < 0.90:
+            ops.append("o.qn %d %d" % (k, node(o)))
+        elif r < 0.93:
+            ops.append("o.qe %d %d" % (k, edge(o)))
+        elif r < 0.95:
+            ops.append("o.qp %d %d %d" % (k, node(o), node(o)))
+        elif r < 0.98:
+            ops.append("o.qg %d" % k)
+        else:
+            ops.append("o.qi %d %d" % (k, rng.randint(0, 7)))
+    for k in sorted(obs):
+        ops.append("o.qg %d" % k)
+        for a in sorted(obs[k].n)[:2]:
+            ops.append("o.qn %d %d" % (k, a))
+    ops.append("qg")
+    return ["case obs%d %s" % (i, "dir" if directed else "undir")] + ops
+
+
 def exhaustive_cases(length, nn, tag, alphabet_extra=True):
     """all histories of the given length over nn pre-created nodes"""
     ids = range(nn)
@@ -195,6 +395,10 @@ def generate(seed, tier):
     nrand = 30000 if tier == "thorough" else 2500
     for i in range(nrand):
         cases.append(random_graph_case(rng, i))
+    # 3. random histories through the association observers (up to 3 observers of one graph)
+    nobs = 30000 if tier == "thorough" else 3000
+    for i in range(nobs):
+        cases.append(random_observer_case(rng, i))
     return cases
 
 
